@@ -284,6 +284,17 @@ def export(kind, before, after):
         return "a block label is used as data by a non-terminator instruction"
     if not phis_independent(before) or not phis_independent(after):
         return "a phi reads the output of an earlier phi of the same block (sequential phi model not applicable)"
+    if kind == "flip":
+        # the bypassed iszero must be defined in the block of the jnz (the validator keeps facts per block only)
+        A = dict(after["blocks"])
+        for lab, insts in before["blocks"]:
+            ai = A.get(lab)
+            if not insts or not ai or insts[-1][0] != "jnz" or ai[-1][0] != "jnz" or len(ai) != len(insts):
+                continue
+            if insts[-1] != ai[-1] and insts[-1][1][0][0] == "var":
+                x = insts[-1][1][0][1]
+                if not any(opc == "iszero" and outs == (x,) for opc, _, outs in insts[:-1]):
+                    return "the iszero bypassed by BranchOptimizationPass is defined in another block"
     num = Numbering(before, after)
     if kind != "split" and num.new:
         return "the pass created blocks"
@@ -586,8 +597,8 @@ def part_cfg_passes(ctx):
                 nfam = 0
             finally:
                 signal.alarm(0)
-            for c in progs:
-                for lvl in levels:
+            for ci, c in enumerate(progs):
+                for lvl in (levels + [OptimizationLevel.O3] if quick and ci < 5 else levels):
                     obs.origin = f"corpus:{c['name']}:{lvl.name}"
                     try:
                         signal.alarm(40)
@@ -656,15 +667,23 @@ def part_cfg_passes(ctx):
     if res is not None:
         verdicts = [(it, r[0] == 1) for it, r in zip(ev_items, res)]
     verdicts += [(it, False) for it in todo if it["exp"] is None]
+    rejected = []
     for it, ok in verdicts:
         stats["checked"] += 1
         if ok:
             stats["accepted"][it["pass"]] += 1
-            continue
-        stats["rejected"][it["pass"]] += 1
+        else:
+            stats["rejected"][it["pass"]] += 1
+            rejected.append(it)
+    # search every rejected instance (bounded) for a concrete input; report those with one first
+    for it in rejected[:24]:
+        if it.get("witness") is None:
+            it["witness"] = search(it["before"], it["after"], rnd)
+    rejected.sort(key=lambda it: it.get("witness") is None)
+    for it in rejected:
         if nrep >= 3:
-            continue
-        w = it.get("witness") or search(it["before"], it["after"], rnd)
+            break
+        w = it.get("witness")
         detail = {"pass": it["pass"], "origin": it["origin"], "function_before": snap_text(it["before"])[:6000],
                   "function_after": snap_text(it["after"])[:6000],
                   "call": f"{it['pass']}(IRAnalysesCache(fn), fn).run_pass() on parse_venom(function_before)"}
@@ -674,7 +693,7 @@ def part_cfg_passes(ctx):
             ctx.violation("failing-input", f"{it['pass']} changes the behaviour of a function: the event traces before/after differ",
                           dict(detail, **w, oracle="opaque instructions return sha256(seed, opcode, operands, #events); run_trace in tools/vlib/c14g_part.py"),
                           key="cfgpass:" + it["pass"])
-        elif it["exp"] is not None:
+        elif it["exp"] is not None and not found:
             nrep += 1
             ctx.violation("theorem-broken", f"cfg_check_sound does not apply: {it['pass']} output rejected by the verified validator", detail)
     if not b["ok"] and not found:
